@@ -35,6 +35,46 @@ def _alarm(signum, frame):
     raise Watchdog()
 
 
+def front_end_view(exc, res, case):
+    """the outlet the statement names: the web front end asks gui.webgui.get_last_error() for (class name, message,
+    line number | address) of the exception the interpreter recorded last, and highlights that line / instruction.
+    Returns False after reporting a violation."""
+    import sys
+
+    try:
+        from architecture_simulator.gui import webgui
+    except Exception:
+        return True  # front-end glue not importable in this tree: nothing to observe
+    if not hasattr(webgui, "get_last_error"):
+        return True
+    from architecture_simulator.isa.parser_exceptions import ParserException
+    from architecture_simulator.simulation.runtime_errors import InstructionExecutionException
+
+    old = getattr(sys, "last_value", None)
+    sys.last_value = exc
+    try:
+        rep = webgui.get_last_error()
+    finally:
+        if old is None:
+            try:
+                del sys.last_value
+            except AttributeError:
+                pass
+        else:
+            sys.last_value = old
+    res.count("front_end_reports_checked")
+    if isinstance(exc, ParserException):
+        want = ("ParserException", exc.line_number)
+    elif isinstance(exc, InstructionExecutionException):
+        want = ("InstructionExecutionException", exc.address)
+    else:
+        return True
+    if not isinstance(rep, tuple) or len(rep) != 3 or rep[0] != want[0] or rep[2] != want[1] or isinstance(rep[2], bool) or not isinstance(rep[1], str):
+        res.violation("C15", "front-end-report", "get_last_error() hands the front end %r for a %s with %s %r" % (rep if not isinstance(rep, tuple) else tuple(str(x)[:80] for x in rep), type(exc).__name__, "line number" if want[0] == "ParserException" else "address", want[1]), case)
+        return False
+    return True
+
+
 def classify_load(kind, text, res, case, fault_kinds):
     """load `text` into a fresh simulation of `kind`; classify; returns class name"""
     from architecture_simulator.isa.parser_exceptions import ParserException, MemorySizeException
@@ -67,6 +107,8 @@ def classify_load(kind, text, res, case, fault_kinds):
         ln = getattr(e, "line_number", None)
         if not isinstance(ln, int) or isinstance(ln, bool) or not (1 <= ln <= nlines):
             res.violation("C15", "bad-line-number", "%s carries line_number=%r for a text of %d lines" % (out, ln, nlines), case)
+            return out
+        if not front_end_view(e, res, case):
             return out
     except (MemorySizeException, MemoryAddressError) as e:
         out = type(e).__name__
@@ -331,6 +373,8 @@ def run_runtime_case(case, res):
         if bad:
             res.violation("C15", "runtime-error-fields", "%s mode: %s" % (mode, "; ".join(bad)), case)
             return
+        if not front_end_view(err, res, case):
+            return
         res.nontrivial(h64([case["prog"], case["regs"], mode]))
 
 
@@ -357,6 +401,8 @@ def run_unimpl_case(case, res):
         res.count("unimplemented_instruction_failures")
         if lst.get(e.address) != e.instruction_repr or e.address != case["at"]:
             res.violation("C15", "runtime-report", "failure of %r reported with address %r and text %r; the listing has %r there (failing instruction at %d)" % (case["instr"], e.address, e.instruction_repr, lst.get(e.address), case["at"]), case)
+            return
+        front_end_view(e, res, case)
         return
     except Exception as e:
         res.violation("C15", "untyped-runtime-error", "single-cycle: a failing %r raised %s: %s instead of an instruction-execution error" % (case["instr"], type(e).__name__, str(e)[:100]), case)
